@@ -3,6 +3,7 @@ import TFV.Properties.Src.ShadeParams
 import TFV.Properties.Src.Greedy
 import TFV.Properties.Src.ShadeBook
 import TFV.Properties.Src.JdeParams
+import TFV.Properties.Src.MemoryUpdate
 #print axioms TFV.Adapt.C15_randc01_range
 #print axioms TFV.Adapt.C15_randc01_progress
 #print axioms TFV.Adapt.C15_randn01_range
@@ -26,3 +27,5 @@ import TFV.Properties.Src.JdeParams
 #print axioms TFV.Properties.Src.JdeParams.C15_src_jde_mutate_F
 #print axioms TFV.Properties.Src.JdeParams.C15_src_jde_mutate_F_range
 #print axioms TFV.Properties.Src.JdeParams.C15_src_jde_mutate_CR
+#print axioms TFV.Properties.Src.MemoryUpdate.C15_src_shade_update_u_CR
+#print axioms TFV.Properties.Src.MemoryUpdate.C15_src_shaga_update_u
